@@ -242,6 +242,12 @@ M('F18R', 'src/xdoctest/core.py', "split_google_docblocks(docstr.expandtabs())",
   'F18 repair reverted: google blocks split on the raw text with tabs')
 M('F20R', 'src/xdoctest/doctest_example.py', "                            exc_got = ''.join(exc_lines)",
   "                            exc_got = exc_lines[-1]", ['C03', 'C20'], 'F20 repair reverted: only the last line of the exception text is compared')
+M('F21R', 'src/xdoctest/checker.py', """            elif got:
+                # The want is empty after normalization, e.g. it only
+                # contains <BLANKLINE> markers
+""", """            elif got:
+                raise AssertionError('impossible state')
+""", ['C09'], 'F21 repair reverted: a failing want of <BLANKLINE> lines cannot be rendered')
 M('F17R', 'src/xdoctest/doctest_example.py', """                part_directive = None
                 try:
                     try:
